@@ -62,33 +62,39 @@ Record st := mk {
   g_ret : list Z;           (* ghost: concatenation of all chunks returned by receive() *)
   g_written : list Z;       (* ghost: concatenation of all items handed to transport.write() *)
   g_lostclean : bool;       (* ghost: connection_lost(None) was delivered *)
-  g_rcancel : bool          (* ghost: some receive() was cancelled while waiting for read_event *)
+  g_rcancel : bool;         (* ghost: some receive() was cancelled while waiting for read_event *)
+  prew : tid -> option chunk;  (* a send() suspended on the write event BEFORE its write (HEAD, commit 58a3fa8): the item still to be written *)
+  g_pending : nat           (* ghost: number of send() items handed to transport.write() whose drain has not been signalled:
+                               a write with the gate open leaves 1 (the transport paused inside write()) or 0, a write with the
+                               gate closed piles one more on top, resume_writing / connection_lost reset it *)
 }.
 
-Definition set_rq (s : st) v : st := mk v (rev s) (wev s) (wval s) (eof s) (exc s) (closed s) (tclosing s) (reading s) (weof s) (aborted s) (rguard s) (sguard s) (phase_of s) (mustc s) (g_recv s) (g_ret s) (g_written s) (g_lostclean s) (g_rcancel s).
-Definition set_rev (s : st) v : st := mk (rq s) v (wev s) (wval s) (eof s) (exc s) (closed s) (tclosing s) (reading s) (weof s) (aborted s) (rguard s) (sguard s) (phase_of s) (mustc s) (g_recv s) (g_ret s) (g_written s) (g_lostclean s) (g_rcancel s).
-Definition set_wev (s : st) v : st := mk (rq s) (rev s) v (wval s) (eof s) (exc s) (closed s) (tclosing s) (reading s) (weof s) (aborted s) (rguard s) (sguard s) (phase_of s) (mustc s) (g_recv s) (g_ret s) (g_written s) (g_lostclean s) (g_rcancel s).
-Definition set_wval (s : st) v : st := mk (rq s) (rev s) (wev s) v (eof s) (exc s) (closed s) (tclosing s) (reading s) (weof s) (aborted s) (rguard s) (sguard s) (phase_of s) (mustc s) (g_recv s) (g_ret s) (g_written s) (g_lostclean s) (g_rcancel s).
-Definition set_eof (s : st) v : st := mk (rq s) (rev s) (wev s) (wval s) v (exc s) (closed s) (tclosing s) (reading s) (weof s) (aborted s) (rguard s) (sguard s) (phase_of s) (mustc s) (g_recv s) (g_ret s) (g_written s) (g_lostclean s) (g_rcancel s).
-Definition set_exc (s : st) v : st := mk (rq s) (rev s) (wev s) (wval s) (eof s) v (closed s) (tclosing s) (reading s) (weof s) (aborted s) (rguard s) (sguard s) (phase_of s) (mustc s) (g_recv s) (g_ret s) (g_written s) (g_lostclean s) (g_rcancel s).
-Definition set_closed (s : st) v : st := mk (rq s) (rev s) (wev s) (wval s) (eof s) (exc s) v (tclosing s) (reading s) (weof s) (aborted s) (rguard s) (sguard s) (phase_of s) (mustc s) (g_recv s) (g_ret s) (g_written s) (g_lostclean s) (g_rcancel s).
-Definition set_tclosing (s : st) v : st := mk (rq s) (rev s) (wev s) (wval s) (eof s) (exc s) (closed s) v (reading s) (weof s) (aborted s) (rguard s) (sguard s) (phase_of s) (mustc s) (g_recv s) (g_ret s) (g_written s) (g_lostclean s) (g_rcancel s).
-Definition set_reading (s : st) v : st := mk (rq s) (rev s) (wev s) (wval s) (eof s) (exc s) (closed s) (tclosing s) v (weof s) (aborted s) (rguard s) (sguard s) (phase_of s) (mustc s) (g_recv s) (g_ret s) (g_written s) (g_lostclean s) (g_rcancel s).
-Definition set_weof (s : st) v : st := mk (rq s) (rev s) (wev s) (wval s) (eof s) (exc s) (closed s) (tclosing s) (reading s) v (aborted s) (rguard s) (sguard s) (phase_of s) (mustc s) (g_recv s) (g_ret s) (g_written s) (g_lostclean s) (g_rcancel s).
-Definition set_aborted (s : st) v : st := mk (rq s) (rev s) (wev s) (wval s) (eof s) (exc s) (closed s) (tclosing s) (reading s) (weof s) v (rguard s) (sguard s) (phase_of s) (mustc s) (g_recv s) (g_ret s) (g_written s) (g_lostclean s) (g_rcancel s).
-Definition set_rguard (s : st) v : st := mk (rq s) (rev s) (wev s) (wval s) (eof s) (exc s) (closed s) (tclosing s) (reading s) (weof s) (aborted s) v (sguard s) (phase_of s) (mustc s) (g_recv s) (g_ret s) (g_written s) (g_lostclean s) (g_rcancel s).
-Definition set_sguard (s : st) v : st := mk (rq s) (rev s) (wev s) (wval s) (eof s) (exc s) (closed s) (tclosing s) (reading s) (weof s) (aborted s) (rguard s) v (phase_of s) (mustc s) (g_recv s) (g_ret s) (g_written s) (g_lostclean s) (g_rcancel s).
-Definition set_phase_of (s : st) v : st := mk (rq s) (rev s) (wev s) (wval s) (eof s) (exc s) (closed s) (tclosing s) (reading s) (weof s) (aborted s) (rguard s) (sguard s) v (mustc s) (g_recv s) (g_ret s) (g_written s) (g_lostclean s) (g_rcancel s).
-Definition set_mustc (s : st) v : st := mk (rq s) (rev s) (wev s) (wval s) (eof s) (exc s) (closed s) (tclosing s) (reading s) (weof s) (aborted s) (rguard s) (sguard s) (phase_of s) v (g_recv s) (g_ret s) (g_written s) (g_lostclean s) (g_rcancel s).
-Definition set_g_recv (s : st) v : st := mk (rq s) (rev s) (wev s) (wval s) (eof s) (exc s) (closed s) (tclosing s) (reading s) (weof s) (aborted s) (rguard s) (sguard s) (phase_of s) (mustc s) v (g_ret s) (g_written s) (g_lostclean s) (g_rcancel s).
-Definition set_g_ret (s : st) v : st := mk (rq s) (rev s) (wev s) (wval s) (eof s) (exc s) (closed s) (tclosing s) (reading s) (weof s) (aborted s) (rguard s) (sguard s) (phase_of s) (mustc s) (g_recv s) v (g_written s) (g_lostclean s) (g_rcancel s).
-Definition set_g_written (s : st) v : st := mk (rq s) (rev s) (wev s) (wval s) (eof s) (exc s) (closed s) (tclosing s) (reading s) (weof s) (aborted s) (rguard s) (sguard s) (phase_of s) (mustc s) (g_recv s) (g_ret s) v (g_lostclean s) (g_rcancel s).
-Definition set_g_lostclean (s : st) v : st := mk (rq s) (rev s) (wev s) (wval s) (eof s) (exc s) (closed s) (tclosing s) (reading s) (weof s) (aborted s) (rguard s) (sguard s) (phase_of s) (mustc s) (g_recv s) (g_ret s) (g_written s) v (g_rcancel s).
-Definition set_g_rcancel (s : st) v : st := mk (rq s) (rev s) (wev s) (wval s) (eof s) (exc s) (closed s) (tclosing s) (reading s) (weof s) (aborted s) (rguard s) (sguard s) (phase_of s) (mustc s) (g_recv s) (g_ret s) (g_written s) (g_lostclean s) v.
+Definition set_rq (s : st) v : st := mk v (rev s) (wev s) (wval s) (eof s) (exc s) (closed s) (tclosing s) (reading s) (weof s) (aborted s) (rguard s) (sguard s) (phase_of s) (mustc s) (g_recv s) (g_ret s) (g_written s) (g_lostclean s) (g_rcancel s) (prew s) (g_pending s).
+Definition set_rev (s : st) v : st := mk (rq s) v (wev s) (wval s) (eof s) (exc s) (closed s) (tclosing s) (reading s) (weof s) (aborted s) (rguard s) (sguard s) (phase_of s) (mustc s) (g_recv s) (g_ret s) (g_written s) (g_lostclean s) (g_rcancel s) (prew s) (g_pending s).
+Definition set_wev (s : st) v : st := mk (rq s) (rev s) v (wval s) (eof s) (exc s) (closed s) (tclosing s) (reading s) (weof s) (aborted s) (rguard s) (sguard s) (phase_of s) (mustc s) (g_recv s) (g_ret s) (g_written s) (g_lostclean s) (g_rcancel s) (prew s) (g_pending s).
+Definition set_wval (s : st) v : st := mk (rq s) (rev s) (wev s) v (eof s) (exc s) (closed s) (tclosing s) (reading s) (weof s) (aborted s) (rguard s) (sguard s) (phase_of s) (mustc s) (g_recv s) (g_ret s) (g_written s) (g_lostclean s) (g_rcancel s) (prew s) (g_pending s).
+Definition set_eof (s : st) v : st := mk (rq s) (rev s) (wev s) (wval s) v (exc s) (closed s) (tclosing s) (reading s) (weof s) (aborted s) (rguard s) (sguard s) (phase_of s) (mustc s) (g_recv s) (g_ret s) (g_written s) (g_lostclean s) (g_rcancel s) (prew s) (g_pending s).
+Definition set_exc (s : st) v : st := mk (rq s) (rev s) (wev s) (wval s) (eof s) v (closed s) (tclosing s) (reading s) (weof s) (aborted s) (rguard s) (sguard s) (phase_of s) (mustc s) (g_recv s) (g_ret s) (g_written s) (g_lostclean s) (g_rcancel s) (prew s) (g_pending s).
+Definition set_closed (s : st) v : st := mk (rq s) (rev s) (wev s) (wval s) (eof s) (exc s) v (tclosing s) (reading s) (weof s) (aborted s) (rguard s) (sguard s) (phase_of s) (mustc s) (g_recv s) (g_ret s) (g_written s) (g_lostclean s) (g_rcancel s) (prew s) (g_pending s).
+Definition set_tclosing (s : st) v : st := mk (rq s) (rev s) (wev s) (wval s) (eof s) (exc s) (closed s) v (reading s) (weof s) (aborted s) (rguard s) (sguard s) (phase_of s) (mustc s) (g_recv s) (g_ret s) (g_written s) (g_lostclean s) (g_rcancel s) (prew s) (g_pending s).
+Definition set_reading (s : st) v : st := mk (rq s) (rev s) (wev s) (wval s) (eof s) (exc s) (closed s) (tclosing s) v (weof s) (aborted s) (rguard s) (sguard s) (phase_of s) (mustc s) (g_recv s) (g_ret s) (g_written s) (g_lostclean s) (g_rcancel s) (prew s) (g_pending s).
+Definition set_weof (s : st) v : st := mk (rq s) (rev s) (wev s) (wval s) (eof s) (exc s) (closed s) (tclosing s) (reading s) v (aborted s) (rguard s) (sguard s) (phase_of s) (mustc s) (g_recv s) (g_ret s) (g_written s) (g_lostclean s) (g_rcancel s) (prew s) (g_pending s).
+Definition set_aborted (s : st) v : st := mk (rq s) (rev s) (wev s) (wval s) (eof s) (exc s) (closed s) (tclosing s) (reading s) (weof s) v (rguard s) (sguard s) (phase_of s) (mustc s) (g_recv s) (g_ret s) (g_written s) (g_lostclean s) (g_rcancel s) (prew s) (g_pending s).
+Definition set_rguard (s : st) v : st := mk (rq s) (rev s) (wev s) (wval s) (eof s) (exc s) (closed s) (tclosing s) (reading s) (weof s) (aborted s) v (sguard s) (phase_of s) (mustc s) (g_recv s) (g_ret s) (g_written s) (g_lostclean s) (g_rcancel s) (prew s) (g_pending s).
+Definition set_sguard (s : st) v : st := mk (rq s) (rev s) (wev s) (wval s) (eof s) (exc s) (closed s) (tclosing s) (reading s) (weof s) (aborted s) (rguard s) v (phase_of s) (mustc s) (g_recv s) (g_ret s) (g_written s) (g_lostclean s) (g_rcancel s) (prew s) (g_pending s).
+Definition set_phase_of (s : st) v : st := mk (rq s) (rev s) (wev s) (wval s) (eof s) (exc s) (closed s) (tclosing s) (reading s) (weof s) (aborted s) (rguard s) (sguard s) v (mustc s) (g_recv s) (g_ret s) (g_written s) (g_lostclean s) (g_rcancel s) (prew s) (g_pending s).
+Definition set_mustc (s : st) v : st := mk (rq s) (rev s) (wev s) (wval s) (eof s) (exc s) (closed s) (tclosing s) (reading s) (weof s) (aborted s) (rguard s) (sguard s) (phase_of s) v (g_recv s) (g_ret s) (g_written s) (g_lostclean s) (g_rcancel s) (prew s) (g_pending s).
+Definition set_g_recv (s : st) v : st := mk (rq s) (rev s) (wev s) (wval s) (eof s) (exc s) (closed s) (tclosing s) (reading s) (weof s) (aborted s) (rguard s) (sguard s) (phase_of s) (mustc s) v (g_ret s) (g_written s) (g_lostclean s) (g_rcancel s) (prew s) (g_pending s).
+Definition set_g_ret (s : st) v : st := mk (rq s) (rev s) (wev s) (wval s) (eof s) (exc s) (closed s) (tclosing s) (reading s) (weof s) (aborted s) (rguard s) (sguard s) (phase_of s) (mustc s) (g_recv s) v (g_written s) (g_lostclean s) (g_rcancel s) (prew s) (g_pending s).
+Definition set_g_written (s : st) v : st := mk (rq s) (rev s) (wev s) (wval s) (eof s) (exc s) (closed s) (tclosing s) (reading s) (weof s) (aborted s) (rguard s) (sguard s) (phase_of s) (mustc s) (g_recv s) (g_ret s) v (g_lostclean s) (g_rcancel s) (prew s) (g_pending s).
+Definition set_g_lostclean (s : st) v : st := mk (rq s) (rev s) (wev s) (wval s) (eof s) (exc s) (closed s) (tclosing s) (reading s) (weof s) (aborted s) (rguard s) (sguard s) (phase_of s) (mustc s) (g_recv s) (g_ret s) (g_written s) v (g_rcancel s) (prew s) (g_pending s).
+Definition set_g_rcancel (s : st) v : st := mk (rq s) (rev s) (wev s) (wval s) (eof s) (exc s) (closed s) (tclosing s) (reading s) (weof s) (aborted s) (rguard s) (sguard s) (phase_of s) (mustc s) (g_recv s) (g_ret s) (g_written s) (g_lostclean s) v (prew s) (g_pending s).
+Definition set_prew (s : st) v : st := mk (rq s) (rev s) (wev s) (wval s) (eof s) (exc s) (closed s) (tclosing s) (reading s) (weof s) (aborted s) (rguard s) (sguard s) (phase_of s) (mustc s) (g_recv s) (g_ret s) (g_written s) (g_lostclean s) (g_rcancel s) v (g_pending s).
+Definition set_g_pending (s : st) v : st := mk (rq s) (rev s) (wev s) (wval s) (eof s) (exc s) (closed s) (tclosing s) (reading s) (weof s) (aborted s) (rguard s) (sguard s) (phase_of s) (mustc s) (g_recv s) (g_ret s) (g_written s) (g_lostclean s) (g_rcancel s) (prew s) v.
 
 Definition init (reading0 : bool) : st :=
   mk [] false 0 (fun _ => true) false None false false reading0 false false None None
-     (fun _ => Idle) (fun _ => false) [] [] [] false false.
+     (fun _ => Idle) (fun _ => false) [] [] [] false false (fun _ => None) 0.
 
 Definition is_idle (p : phase) := match p with Idle => true | _ => false end.
 Definition is_recv (p : phase) := match p with RecvYield _ | RecvWait _ _ => true | _ => false end.
@@ -110,9 +116,12 @@ Definition wake_writers (ev : nat) (ph : tid -> phase) : tid -> phase :=
 Definition read_event_set (s : st) : st :=
   if rev s then s else set_phase_of (set_rev s true) (wake_readers (phase_of s)).
 
-Definition write_event_set (s : st) : st :=
+Definition write_event_set0 (s : st) : st :=
   if wval s (wev s) then s
   else set_phase_of (set_wval s (upd (wval s) (wev s) true)) (wake_writers (wev s) (phase_of s)).
+
+(* resume_writing: the buffer has drained; connection_lost: it was discarded *)
+Definition write_event_set (s : st) : st := write_event_set0 (set_g_pending s 0).
 
 (* StreamProtocol.pause_writing: self.write_event = asyncio.Event()  (a NEW, unset event object) *)
 Definition pause_writing (s : st) : st :=
@@ -120,7 +129,8 @@ Definition pause_writing (s : st) : st :=
 
 (* leaving the `with self._receive_guard:` / `with self._send_guard:` block: ResourceGuard.__exit__ *)
 Definition leave_recv (s : st) (t : tid) : st := set_mc (set_phase (set_rguard s None) t Idle) t false.
-Definition leave_send (s : st) (t : tid) : st := set_mc (set_phase (set_sguard s None) t Idle) t false.
+Definition clear_prew (s : st) (t : tid) : st := set_prew s (upd (prew s) t None).
+Definition leave_send (s : st) (t : tid) : st := clear_prew (set_mc (set_phase (set_sguard s None) t Idle) t false) t.
 
 (* receive(), lines 1348-1368: pop a chunk, split, clear read_event when the queue became empty *)
 Definition recv_finish (s : st) (t : tid) (mx : nat) : st * res :=
@@ -137,6 +147,20 @@ Definition recv_finish (s : st) (t : tid) (mx : nat) : st * res :=
       (leave_recv s2 t, RData hd)
   end.
 
+(* send(), from the closed/broken checks to the wait after the write (lines 1480-1493 at HEAD) *)
+Definition send_write (s : st) (t : tid) (item : chunk) (pw : bool) : st * res :=
+  if closed s then (leave_send s t, RClosed) else
+  match exc s with
+  | Some _ => (leave_send s t, RBroken)
+  | None =>
+      if weof s then (leave_send s t, if tclosing s then RBroken else RRuntime) else
+      let pend := if wval s (wev s) then (if pw then 1 else 0) else S (g_pending s) in
+      let s1 := set_g_pending (set_g_written s (g_written s ++ item)) pend in
+      let s2 := if pw then pause_writing s1 else s1 in
+      if wval s2 (wev s2) then (leave_send s2 t, RDone)
+      else (set_phase s2 t (SendWait (wev s2) FPending), RBlocked)
+  end.
+
 (* `finally: self._transport.pause_reading()` of receive() on the CancelledError path (HEAD only) *)
 Definition cancel_wait (pinned : bool) (s : st) : st := if pinned then s else set_reading s false.
 
@@ -147,8 +171,9 @@ Definition send_wait_result (pinned : bool) (s : st) : res :=
   if closed s then RClosed else match exc s with Some _ => RBroken | None => RDone end.
 
 (* pinned = true: the behaviour of the pinned tree before commit ab750b3 (a receive() cancelled while
-   waiting skipped pause_reading()) and before d2d2221 (a send() released by connection_lost() returned normally);
-   pinned = false: HEAD. *)
+   waiting skipped pause_reading()), before d2d2221 (a send() released by connection_lost() returned normally),
+   before a778493 (a cancelled aclose() did not abort the transport) and before 58a3fa8 (send() wrote first and waited
+   afterwards only); pinned = false: HEAD. *)
 Definition stepv (pinned : bool) (s : st) (o : op) : st * res :=
   match o with
   | Receive t mx =>
@@ -197,24 +222,24 @@ Definition stepv (pinned : bool) (s : st) (o : op) : st * res :=
           end
       | SendYield item =>
           if mustc s t then (leave_send s t, RCancelled) else
-          if closed s then (leave_send s t, RClosed) else
-          match exc s with
-          | Some _ => (leave_send s t, RBroken)
-          | None =>
-              if weof s then (leave_send s t, if tclosing s then RBroken else RRuntime) else
-              let s1 := set_g_written s (g_written s ++ item) in
-              let s2 := if pw then pause_writing s1 else s1 in
-              if wval s2 (wev s2) then (leave_send s2 t, RDone)
-              else (set_phase s2 t (SendWait (wev s2) FPending), RBlocked)
-          end
+          if andb (negb pinned) (andb (negb (closed s)) (negb (wval s (wev s)))) then
+            (* HEAD: data left behind by a cancelled send() must drain first: wait for the write event BEFORE writing *)
+            (set_phase (set_prew s (upd (prew s) t (Some item))) t (SendWait (wev s) FPending), RBlocked)
+          else send_write s t item pw
       | SendWait ev f =>
           match f with
           | FPending => (s, RRejected)
           | FCancelled => (leave_send s t, RCancelled)
-          | FSet => if mustc s t then (leave_send s t, RCancelled) else (leave_send s t, send_wait_result pinned s)
+          | FSet =>
+              if mustc s t then (leave_send s t, RCancelled) else
+              match prew s t with
+              | Some item => send_write (clear_prew s t) t item pw      (* the pre-write wait is over: checks, write, wait *)
+              | None => (leave_send s t, send_wait_result pinned s)
+              end
           end
       | CloseYield =>
-          if mustc s t then (set_mc (set_phase s t Idle) t false, RCancelled)
+          (* HEAD (commit a778493): `try: await sleep(0) finally: self._transport.abort()` *)
+          if mustc s t then (set_mc (set_phase (if pinned then s else set_aborted s true) t Idle) t false, RCancelled)
           else (set_phase (set_aborted s true) t Idle, RDone)
       end
   | DataReceived d =>
@@ -248,7 +273,7 @@ Definition observe (s : st) (r : res) : list Z :=
   res_obs r ++
   [nz (length (rq s)); nz (length (concat (rq s))); bz (rev s); bz (wval s (wev s)); bz (eof s); oz (exc s);
    bz (closed s); bz (tclosing s); bz (reading s); bz (weof s); bz (aborted s);
-   bz (isSome (rguard s)); bz (isSome (sguard s)); nz (length (g_written s))].
+   bz (isSome (rguard s)); bz (isSome (sguard s)); nz (length (g_written s)); nz (g_pending s)].
 
 Definition dump_chunk (c : chunk) : list Z := nz (length c) :: c.
 
